@@ -6,7 +6,7 @@ every id-carrying TyKind / WhereClause variant and never cuts the traversal).
 Not decided: that the stubs are sufficient for the answers to coincide."""
 import re
 from core import enum_matches, walk, calls, peel, find_matches, select_arms, V, callee_matches, var_name
-from kit import need_body, has_call, short, mentions_field, dominated_by_calls
+from kit import need_body, has_call, short, mentions_field, dominated_by_calls, thir_all, collector_never_breaks
 
 LOG = "chalk_solve::logging_db::LoggingRustIrDatabase"
 RECORDABLE = ("TraitId", "AdtId", "ImplId", "OpaqueTyId", "FnDefId", "CoroutineId")
@@ -227,3 +227,87 @@ def run(ck, facts, tier):
             ck.ok(R, "fmt:collect+stubs+items")
         else:
             ck.violation(R, "fmt:collect+stubs+items", d.where(), "Display must write collect_unrecorded_ids stubs and the recorded items")
+
+    R = "C23.IDCOLLECT-ALL"
+    ck.rule(R, "K1: IdCollector (finds every item id referenced by a recorded item, to stub it) never aborts its traversal (no visit method returns ControlFlow::Break)")
+    collector_never_breaks(ck, R, facts, "chalk_solve", "<chalk_solve::logging_db::id_collector::IdCollector as chalk_ir::visit::TypeVisitor>::", "IdCollector", 1)
+
+    R = "C23.RECORD-MONOTONE"
+    ck.rule(R, "K4 who-may-write: the set of recorded ids (LoggingRustIrDatabase.def_ids) only ever grows: it is borrowed mutably "
+               "(DerefMut / get_mut / into_inner / mem::take|replace|swap) only in record / record_all, which only insert / extend; "
+               "printing the wrapper (Display::fmt) and every other function read it through Deref only - so every print contains "
+               "everything served so far, however many times the wrapper was printed before")
+    MUT = ("DerefMut::deref_mut", "Mutex::<T>::get_mut", "Mutex::<T>::into_inner", "mem::take", "mem::replace", "mem::swap",
+           "get_mut", "into_inner")
+    SHRINK = ("clear", "remove", "swap_remove", "shift_remove", "drain", "retain", "pop", "truncate", "take", "swap_take", "shift_take", "split_off")
+    WRITERS = {"chalk_solve::logging_db::LoggingRustIrDatabase::record": ("insert",),
+               "chalk_solve::logging_db::LoggingRustIrDatabase::record_all": ("extend",)}
+    users = 0
+    for key, b in sorted(facts.bodies("chalk_solve").items()):
+        if b.thir is None or "{" in key:
+            continue
+        roots = thir_all(facts, b)
+        if not any(mentions_field(t, "def_ids") for t in roots):
+            continue
+        users += 1
+        touching = [c for t in roots for c in calls(t) if mentions_field(c, "def_ids")]
+        muts = [c for c in touching if callee_matches(c, MUT)]
+        shr = [c for c in touching if str(c.get("fn", "")).split("::")[-1] in SHRINK]
+        inst = "%s:def_ids" % short(key)
+        if key in WRITERS:
+            grow = [c for c in touching if str(c.get("fn", "")).split("::")[-1] in WRITERS[key]]
+            if grow and not shr:
+                ck.ok(R, inst, "mutable borrow used to %s only" % "/".join(WRITERS[key]))
+            else:
+                ck.violation(R, inst, b.where(), "record functions may only add ids to the recorded set")
+        elif muts or shr:
+            c = (muts + shr)[0]
+            ck.violation(R, inst, b.where(c.get("ln")), "`%s` on the recorded-id set outside record / record_all: a reader that mutates (drains, "
+                         "replaces) the record makes later prints of the same wrapper incomplete" % str(c.get("fn", "")).split("::")[-1])
+        else:
+            ck.ok(R, inst, "read-only")
+    ck.floor(R, "functions-touching-def_ids", users, 4)
+
+    R = "C23.NO-BYPASS"
+    ck.rule(R, "K5 + call-graph effect: a RustIrDatabase method whose ordinary implementations *re-enter* the database (their bodies reach other "
+               "RustIrDatabase callbacks - today only program_clauses_for_env, which runs the environment elaboration) must not be forwarded "
+               "by the recording wrapper to the wrapped database: the nested lookups would be served by the wrapped database directly and "
+               "never recorded.  The wrapper has to run the computation on itself")
+    DBT = "chalk_solve::RustIrDatabase::"
+    WRAPPERS = ("chalk_solve::logging_db::LoggingRustIrDatabase", "chalk_solve::logging_db::WriteOnDropRustIrDatabase",
+                "chalk_solve::display::stub::StubWrapper")
+    # a database method re-enters when an ordinary (non-wrapper) implementation hands `self` *as the database* to a free function
+    # (e.g. `chalk_solve::program_clauses_for_env(self, environment)`): that function will call back into whatever database it was given
+    reentrant = {}
+    for crate in ("chalk_solve", "chalk_integration"):
+        if not facts.has_crate(crate):
+            continue
+        for key, b in facts.bodies(crate).items():
+            ti = b.d.get("trait_item") or ""
+            if not ti.startswith(DBT) or any(w in key for w in WRAPPERS) or "{" in key or b.thir is None:
+                continue
+            for t in thir_all(facts, b):
+                for c in calls(t):
+                    if c.get("recv") is None and not str(c.get("fn", "")).startswith(("core::", "std::", "alloc::")) and \
+                            any(var_name(peel(a)) == "self" for a in c.get("args", [])):
+                        reentrant.setdefault(ti.split("::")[-1], []).append("%s -> %s" % (short(key), str(c.get("fn"))))
+    ck.count("re-entrant-database-methods", sorted(reentrant))
+    ck.floor(R, "re-entrant methods found in the workspace's database impls", len(reentrant), 1)
+    ims = facts.impls("chalk_solve", trait="chalk_solve::RustIrDatabase", self_key=LOG)
+    for it in (ims[0]["items"] if ims else []):
+        if it["n"] not in reentrant:
+            continue
+        b = facts.body(it["key"])
+        if b is None:
+            continue
+        fwd = [c for t in thir_all(facts, b) for c in calls(t) if str(c.get("fn", "")) == DBT + it["n"]]
+        on_self = [c for t in thir_all(facts, b) for c in calls(t) if c.get("args") and var_name(peel(c["args"][0])) == "self"
+                   and str(c.get("fn", "")) != DBT + it["n"]]
+        inst = "LoggingRustIrDatabase::%s" % it["n"]
+        if fwd:
+            ck.violation(R, inst, b.where(fwd[0].get("ln")), "`%s` re-enters the database (%s) but the wrapper forwards it to the wrapped "
+                         "database: everything it looks up while computing is served unrecorded" % (it["n"], reentrant[it["n"]][:2]))
+        elif on_self:
+            ck.ok(R, inst, "computed on the wrapper itself (%s)" % str(on_self[0].get("fn", "")).split("::")[-1])
+        else:
+            ck.violation(R, inst, b.where(), "re-entrant method neither forwarded nor computed on `self`: unclassified")
